@@ -1,4 +1,4 @@
-import RxnModel.Proofs.Heap
+import RxnModel.Proofs.HeapIdx
 /-! PartitionedPriorityQueue: the heap of partitions stays ordered by the partitions' heads under the code's
 `Fix(partition.Index())` after every change of one partition, so `Peek` is a global minimum. -/
 namespace Rxn.PPQ
@@ -30,48 +30,58 @@ theorem partLt_set (parts : Array (List Item)) (p : Nat) (l : List Item) (a b : 
 structure PInv (q : Q) : Prop where
   hinv : Heap.Inv (partLt q.parts) q.heap
   hperm : q.heap.toList.Perm (List.range q.parts.size)
+  /-- every partition's stored index (`Index()`) is its position in the heap -/
+  hidx : HeapI.Ok id q.heap q.idx
 
-theorem index_spec (heap : Array Nat) (n p : Nat) (hperm : heap.toList.Perm (List.range n)) (hp : p < n) :
-    ∃ hi : indexOf heap p < heap.size, heap[indexOf heap p] = p ∧
-      ∀ j y, heap[j]? = some y → y = p → j = indexOf heap p := by
+/-- `partition.Index()` is the partition's position (from the assigner invariant) -/
+theorem index_spec (heap : Array Nat) (idx : Nat → Int) (n p : Nat) (hperm : heap.toList.Perm (List.range n))
+    (hok : HeapI.Ok id heap idx) (hp : p < n) :
+    0 ≤ idx p ∧ ∃ hi : (idx p).toNat < heap.size, heap[(idx p).toNat] = p ∧
+      ∀ j y, heap[j]? = some y → y = p → j = (idx p).toNat := by
   have hmem : p ∈ heap.toList := hperm.symm.subset (List.mem_range.mpr hp)
-  have hlt : List.idxOf p heap.toList < heap.toList.length := List.idxOf_lt_length_iff.mpr hmem
-  have hnd : heap.toList.Nodup := hperm.nodup_iff.mpr List.nodup_range
-  refine ⟨by simpa [indexOf] using hlt, ?_, ?_⟩
-  · have := List.getElem_idxOf hlt
-    rw [Array.getElem_toList] at this
-    exact this
+  obtain ⟨i, hi, hip⟩ := List.getElem_of_mem hmem
+  simp only [Array.length_toList] at hi
+  simp only [Array.getElem_toList] at hip
+  have hpos := hok.pos i hi
+  simp only [id, hip] at hpos
+  refine ⟨by omega, by rw [hpos]; simpa using hi, ?_, ?_⟩
+  · simp only [hpos, Int.toNat_natCast]; exact hip
   · intro j y hy hyp
     have hj := Heap.lt_size_of_get? hy
     rw [Heap.get?_some hj] at hy
     simp only [Option.some.injEq] at hy
-    have := hnd.idxOf_getElem j (by simpa using hj)
-    simp only [Array.getElem_toList] at this
-    rw [hy, hyp] at this
-    exact this.symm
+    have := hok.inj j i hj hi (by simp only [id]; rw [hy, hyp, hip])
+    rw [hpos]; simpa using this
 
 /-- the step shared by `Pop`, `Push`, `Delete`: one partition changed, then `heap.Fix(partition.Index())` -/
 theorem refix_inv (q : Q) (h : PInv q) (p : Nat) (hp : p < q.parts.size) (l : List Item) :
-    PInv ⟨q.parts.setIfInBounds p l, refix (q.parts.setIfInBounds p l) q.heap p⟩ := by
-  obtain ⟨hi, hip, huniq⟩ := index_spec q.heap q.parts.size p h.hperm hp
+    PInv ⟨q.parts.setIfInBounds p l, (refix (q.parts.setIfInBounds p l) q.heap q.idx p).1,
+      (refix (q.parts.setIfInBounds p l) q.heap q.idx p).2⟩ := by
+  obtain ⟨h0, hi, hip, huniq⟩ := index_spec q.heap q.idx q.parts.size p h.hperm h.hidx hp
   have sw := partLt_sw q.parts
   have sw' := partLt_sw (q.parts.setIfInBounds p l)
-  have hne : ∀ j y, q.heap[j]? = some y → j ≠ indexOf q.heap p → y ≠ p := fun j y hy hj e => hj (huniq j y hy e)
+  have hne : ∀ j y, q.heap[j]? = some y → j ≠ (q.idx p).toNat → y ≠ p := fun j y hy hj e => hj (huniq j y hy e)
   have hle : ∀ a b, a ≠ p → b ≠ p → (Heap.le (partLt (q.parts.setIfInBounds p l)) a b ↔ Heap.le (partLt q.parts) a b) := by
     intro a b ha hb; unfold Heap.le; rw [partLt_set q.parts p l b a hb ha]
-  constructor
-  · apply Heap.fix_inv sw' _ _ hi
+  have hfst : (refix (q.parts.setIfInBounds p l) q.heap q.idx p).1 =
+      Heap.fix (partLt (q.parts.setIfInBounds p l)) q.heap (q.idx p).toNat := HeapI.fixI_fst _ _ _ _ _ h0
+  refine ⟨?_, ?_, HeapI.fixI_ok _ _ _ _ _ h.hidx⟩
+  · show Heap.Inv _ (refix (q.parts.setIfInBounds p l) q.heap q.idx p).1
+    rw [hfst]
+    apply Heap.fix_inv sw' _ _ hi
     constructor
     · intro j hji hpi hj0 x y hx hy
       rw [hle x y (hne _ x hx hpi) (hne _ y hy hji)]
       exact h.hinv j hj0 x y hx hy
     · intro hi0 c hc0 hcp x y hx hy
-      have hpi : (indexOf q.heap p - 1) / 2 ≠ indexOf q.heap p := by omega
-      have hci : c ≠ indexOf q.heap p := by omega
+      have hpi : ((q.idx p).toNat - 1) / 2 ≠ (q.idx p).toNat := by omega
+      have hci : c ≠ (q.idx p).toNat := by omega
       rw [hle x y (hne _ x hx hpi) (hne _ y hy hci)]
       exact Heap.le_trans' sw (h.hinv _ hi0 x _ hx (Heap.get?_some hi))
         (h.hinv c hc0 _ y (by rw [hcp]; exact Heap.get?_some hi) hy)
-  · simp only [Array.size_setIfInBounds]
+  · show (refix (q.parts.setIfInBounds p l) q.heap q.idx p).1.toList.Perm _
+    rw [hfst]
+    simp only [Array.size_setIfInBounds]
     exact (Heap.fix_perm _ _ _).trans h.hperm
 
 theorem push_inv (q : Q) (h : PInv q) (x : Item) (hx : x.part < q.parts.size) : PInv (push q x) :=
@@ -100,24 +110,41 @@ theorem pop_inv (q : Q) (h : PInv q) : PInv (pop q).2 := by
     | cons x rest => exact refix_inv q h p (peek_part q h p hp) rest
 
 theorem new_inv (parts : Array (List Item)) : PInv (new parts) := by
-  unfold new
-  have key : ∀ (ps : List Nat) (acc : Array Nat), Heap.Inv (partLt parts) acc →
-      Heap.Inv (partLt parts) (ps.foldl (fun h p => Heap.push (partLt parts) h p) acc) ∧
-      (ps.foldl (fun h p => Heap.push (partLt parts) h p) acc).toList.Perm (acc.toList ++ ps) := by
+  have key : ∀ (ps : List Nat) (acc : Array Nat × (Nat → Int)), Heap.Inv (partLt parts) acc.1 →
+      HeapI.Ok id acc.1 acc.2 → (acc.1.toList ++ ps).Nodup →
+      Heap.Inv (partLt parts) (ps.foldl (fun h p => HeapI.pushI id (partLt parts) h.1 h.2 p) acc).1 ∧
+      (ps.foldl (fun h p => HeapI.pushI id (partLt parts) h.1 h.2 p) acc).1.toList.Perm (acc.1.toList ++ ps) ∧
+      HeapI.Ok id (ps.foldl (fun h p => HeapI.pushI id (partLt parts) h.1 h.2 p) acc).1
+        (ps.foldl (fun h p => HeapI.pushI id (partLt parts) h.1 h.2 p) acc).2 := by
     intro ps
     induction ps with
-    | nil => intro acc h; simp [h]
+    | nil => intro acc h ho _; simp [h, ho]
     | cons p ps ih =>
-      intro acc h
+      intro acc h ho hnd
       simp only [List.foldl_cons]
-      obtain ⟨a, b⟩ := ih _ (Heap.push_inv (partLt_sw parts) acc p h)
-      refine ⟨a, b.trans ?_⟩
-      have := Heap.push_perm (partLt parts) acc p
-      refine (this.append_right ps).trans ?_
+      have hfst := HeapI.pushI_fst id (partLt parts) acc.1 acc.2 p
+      have hperm1 : (HeapI.pushI id (partLt parts) acc.1 acc.2 p).1.toList.Perm (p :: acc.1.toList) := by
+        rw [hfst]; exact Heap.push_perm _ _ _
+      have hfresh : ∀ i (hi : i < acc.1.size), id acc.1[i] ≠ id p := by
+        intro i hi e
+        have hm : p ∈ acc.1.toList := by
+          simp only [id] at e; rw [← e]; exact Array.getElem_mem_toList hi
+        rw [List.nodup_append] at hnd
+        exact hnd.2.2 p hm p List.mem_cons_self rfl
+      obtain ⟨a, b, c⟩ := ih (HeapI.pushI id (partLt parts) acc.1 acc.2 p)
+        (by rw [hfst]; exact Heap.push_inv (partLt_sw parts) acc.1 p h)
+        (HeapI.pushI_ok id _ _ _ _ ho hfresh)
+        (by
+          have hp2 : ((HeapI.pushI id (partLt parts) acc.1 acc.2 p).1.toList ++ ps).Perm (acc.1.toList ++ p :: ps) :=
+            (hperm1.append_right ps).trans (by simp only [List.cons_append]; exact List.perm_middle.symm)
+          exact hp2.nodup_iff.mpr hnd)
+      refine ⟨a, b.trans ?_, c⟩
+      refine (hperm1.append_right ps).trans ?_
       simp only [List.cons_append]
       exact List.perm_middle.symm
-  obtain ⟨a, b⟩ := key (List.range parts.size) #[] (by intro j _ x y hx _; simp at hx)
-  exact ⟨a, by simpa using b⟩
+  obtain ⟨a, b, c⟩ := key (List.range parts.size) (#[], fun _ => -1) (by intro j _ x y hx _; simp at hx)
+    ⟨by intro i j hi; simp at hi, by intro i hi; simp at hi⟩ (by simpa using List.nodup_range)
+  exact ⟨a, by simpa [new] using b, c⟩
 
 /-- `Peek` is a global minimum: no item of any partition whose head is its minimum has a lower priority -/
 theorem peek_min (q : Q) (h : PInv q) (x : Item) (hx : peek q = some x) (p : Nat) (hp : p < q.parts.size)
@@ -128,8 +155,8 @@ theorem peek_min (q : Q) (h : PInv q) (x : Item) (hx : peek q = some x) (p : Nat
   | some r =>
     rw [hr] at hx
     simp only [] at hx
-    obtain ⟨hi, hip, _⟩ := index_spec q.heap q.parts.size p h.hperm hp
-    have := Heap.root_min (partLt_sw q.parts) q.heap h.hinv r hr (indexOf q.heap p) p (by rw [Heap.get?_some hi, hip])
+    obtain ⟨_, hi, hip, _⟩ := index_spec q.heap q.idx q.parts.size p h.hperm h.hidx hp
+    have := Heap.root_min (partLt_sw q.parts) q.heap h.hinv r hr (q.idx p).toNat p (by rw [Heap.get?_some hi, hip])
     unfold Heap.le partLt at this
     rw [hy, hx] at this
     simpa using this
@@ -138,7 +165,7 @@ theorem peek_min (q : Q) (h : PInv q) (x : Item) (hx : peek q = some x) (p : Nat
 theorem peek_none (q : Q) (h : PInv q) (hx : peek q = none) (p : Nat) (hp : p < q.parts.size) :
     headOf q.parts p = none := by
   unfold peek at hx
-  obtain ⟨hi, hip, _⟩ := index_spec q.heap q.parts.size p h.hperm hp
+  obtain ⟨_, hi, hip, _⟩ := index_spec q.heap q.idx q.parts.size p h.hperm h.hidx hp
   cases hr : Heap.peek q.heap with
   | none =>
     unfold Heap.peek at hr
@@ -150,7 +177,7 @@ theorem peek_none (q : Q) (h : PInv q) (hx : peek q = none) (p : Nat) (hp : p < 
   | some r =>
     rw [hr] at hx
     simp only [] at hx
-    have := Heap.root_min (partLt_sw q.parts) q.heap h.hinv r hr (indexOf q.heap p) p (by rw [Heap.get?_some hi, hip])
+    have := Heap.root_min (partLt_sw q.parts) q.heap h.hinv r hr (q.idx p).toNat p (by rw [Heap.get?_some hi, hip])
     unfold Heap.le partLt at this
     rw [hx] at this
     cases hh : headOf q.parts p with
@@ -259,18 +286,39 @@ theorem step_inv (q : Q) (o : Op) (h : PInv q) : PInv (step q o) := by
     · rw [if_neg hx]; exact h
   | pop => exact pop_inv q h
 
-theorem run_inv (n : Nat) (ops : List Op) : PInv (run n ops) ∧ PSorted (run n ops) := by
-  unfold run
+theorem runFrom_inv (parts : Array (List Item)) (ops : List Op)
+    (hs : ∀ p, (parts.getD p []).Pairwise (fun a b => a.prio ≤ b.prio)) :
+    PInv (runFrom parts ops) ∧ PSorted (runFrom parts ops) := by
+  unfold runFrom
   have key : ∀ q, PInv q → PSorted q → PInv (ops.foldl step q) ∧ PSorted (ops.foldl step q) := by
     induction ops with
     | nil => intro q a b; exact ⟨a, b⟩
     | cons o ops ih => intro q a b; exact ih _ (step_inv q o a) (step_sorted q o b)
-  apply key _ (new_inv _)
+  exact key _ (new_inv _) (by intro p; simpa [new] using hs p)
+
+theorem run_inv (n : Nat) (ops : List Op) : PInv (run n ops) ∧ PSorted (run n ops) := by
+  apply runFrom_inv
   intro p
-  simp only [new]
   rw [Array.getD_eq_getD_getElem?]
   by_cases hp : p < n
   · simp [hp]
   · simp [hp]
+
+/-- `Pop` returns what `Peek` shows and removes exactly that item (the head of one partition) -/
+theorem pop_spec (q : Q) :
+    (pop q).1 = peek q ∧
+    ∀ x, peek q = some x → ∃ p, (q.parts.getD p []).head? = some x ∧
+      (pop q).2.parts = q.parts.setIfInBounds p (q.parts.getD p []).tail := by
+  unfold pop peek
+  cases hp : Heap.peek q.heap with
+  | none => exact ⟨rfl, fun x hx => by cases hx⟩
+  | some p =>
+    simp only [headOf]
+    cases hl : q.parts.getD p [] with
+    | nil => exact ⟨rfl, fun x hx => by cases hx⟩
+    | cons y rest =>
+      refine ⟨rfl, fun x hx => ⟨p, ?_, ?_⟩⟩
+      · rw [hl]; exact hx
+      · simp only [hl, List.tail_cons]
 
 end Rxn.PPQ
